@@ -75,7 +75,9 @@ CHECKS = {
                      'against ObsC11: per consumer exactly the puts after its subscription, in order, once; single await gets the '
                      'first message; close semantics; nobody left waiting for a message that was put.  TLC also checks the invariant '
                      'ChannelExact on every state (each consumer buffer is the gapless run of messages it has not received yet); '
-                     'messages are distinct objects that compare equal.',
+                     'messages are distinct objects that compare equal.  Added: TLC checks that USim REFINES the abstract broadcast '
+                     'channel ChanAbs (Send / Close / Register / Take / Leave) with the action properties HeadOnly, Broadcast, OrderKept, '
+                     'ClosedForGood; Apalache proves the invariant Exact of ChanAbs inductive (any number of messages and consumers).',
                 note='Bounded programs; a consumer iterator is kept by the puppet until it stops explicitly or its generator ends.'),
     'C01': dict(obs='ObsC01', ref='4/C01',
                 text='TLC checks FutureOnly/NoFault on all bounded programs of delays, date conditions (>=, ==, < incl. past, now, '
@@ -115,7 +117,10 @@ CHECKS = {
                      'Seeded random tear-downs of several holders of one supply (failing / interrupted / cancelled scope) while the '
                      'supply is changed, borrowed from and probed in the same time step are validated as well.  Supplies with TWO resource '
                      'types (vector levels: a borrow waits for and takes all types in one step, a claim fails if any type is '
-                     'short, set() of a subset of the types) are explored with the same model and monitor.',
+                     'short, set() of a subset of the types) are explored with the same model and monitor.  Added: TLC checks that '
+                     'USim REFINES the abstract ledger ResAbs (every step touching the level of a supply or what is owed to it is a '
+                     'Take / Give / Change, or the named deviation Forfeit of the known finding; no Forfeit without interrupts; '
+                     'level + owed constant where the supply is not changed); Apalache proves NonNegative of ResAbs inductive.',
                 note='One or two resource names, amounts 0..2. The leak after an interrupt during acquisition/release is an open known '
                      'finding (KF-C12-interrupted-transfer); other leaks are violations.'),
     'C14': dict(obs='ObsC14', ref='4/C14',
@@ -215,6 +220,19 @@ CHECKS = {
 }
 
 
+# additions of round 6 (appended to the texts above)
+ROUND6 = {
+    'C01': 'The timing storm also uses ONE condition object twice (awaited or watched before its date, watched again by an until-block at or after it).',
+    'C03': 'Six hand-written programs with a ticker OBJECT that outlives a forcibly closed task are run (known finding KF-C03-kept-ticker-closed); the queue and channel configurations of C10 / C11 and a configuration with children whose start date or next tick lies beyond an until trigger are replayed as well.',
+    'C07': 'Configuration until_late: children whose start date or next tick lies beyond the trigger while the simulation goes on past those dates (clause died_after_closing_children: what a triggered block leaves behind must be dead).',
+    'C08': 'Configuration set_cut (the setter of a level is interrupted inside set / increase); at the end of a run waiting level comparisons are compared with the levels the run itself reports.',
+    'C14': 'Configuration closed: tickers in children that are closed forcefully in the middle of a pause while a neighbour ticks on (clause run_died_under_ticker).',
+    'C16': 'Consumers until0 / cancel0: the interrupt of the caller is already in flight when the call is made, the activities have not had a turn yet; never-started activities stay visible to the monitor until the run is over.',
+    'C17': 'The scenario space includes specialisations without any named type (Concurrent[()] and Concurrent[(...,)]); a handler the library refuses to build is a violation (handler_rejected).',
+    'C18': 'Scripts also run with the falsy date until=0.',
+}
+
+
 def main():
     props = [json.loads(l)['id'] for l in open(os.path.join(ROOT, 'properties.jsonl'))]
     checks = []
@@ -229,7 +247,7 @@ def main():
             'evidence_file': 'evidence/%s.json' % pid,
             'replay_cmd_template': 'bin/check %s --replay {path}' % pid,
             'engine': 'tlc',
-            'level_claimed': {'category': c.get('level', 'model_checking'), 'text': c['text'],
+            'level_claimed': {'category': c.get('level', 'model_checking'), 'text': c['text'] + ('  Added in round 6: ' + ROUND6[pid] if pid in ROUND6 else ''),
                               'design_ref': 'DESIGN.md section ' + c['ref']},
             'level_note': c['note'],
             'technique': c.get('technique', TECH % c['obs']),
